@@ -118,6 +118,12 @@ def check_ctor_copies(ctx, rule, cls, f, params):
             return {'none'}
         if isinstance(expr, ast.Name):
             return set(state.get(expr.id, ()))
+        if isinstance(expr, ast.IfExp):
+            # `p.copy() if p else p`: each arm is read under what the test says about p
+            return classify(expr.body, refine(expr.test, state, True)) | classify(expr.orelse, refine(expr.test, state, False))
+        if isinstance(expr, ast.BoolOp) and isinstance(expr.op, ast.And) and len(expr.values) == 2:
+            # `p and p.copy()`: p itself only when it is falsy
+            return classify(expr.values[0], refine(expr.values[0], state, False)) | classify(expr.values[1], refine(expr.values[0], state, True))
         tags = set()
         for n in ast.walk(expr):
             if isinstance(n, ast.Name) and n.id in state:
@@ -186,7 +192,8 @@ def copy_builds_class(ix, c, fn):
             return (False, res[0][1]) if res else (False, 'result variable %s is never assigned' % v.id)
         if not isinstance(v, ast.Call):
             return False, 'returns %s' % unparse(v)
-        f = v.func
+        from ..util import expand_locals
+        f = expand_locals(fn.node, v.func)
         txt = unparse(f).replace(' ', '')
         if txt in ('type(%s)' % selfname, '%s.__class__' % selfname):
             return True, ''
@@ -416,6 +423,14 @@ def check_contextmanager(ctx, rule, m, node, construct):
                detail='%s changes %s before its yield and restores it with `%s` outside any finally block: an exception '
                       'raised inside the with-block leaves the state changed for the rest of the session' % (construct, t, norm(st)),
                where='%s:%d' % (m.relpath, st.lineno))
+    if n == 0 and not pre:
+        # nothing is changed here: the yield sits inside the with-block of another context manager, which restores
+        from ..util import enclosing
+        w = enclosing(pm, y, (ast.With, ast.AsyncWith))
+        if w is not None:
+            ctx.ob(rule, construct, 'the state is changed and restored by the context manager `%s` the yield is wrapped in'
+                   % norm(w.items[0].context_expr), True)
+            return 1
     return n
 
 
